@@ -43,6 +43,7 @@ fn main() {
         let mut pool: Vec<V> = Vec::with_capacity(1024);
         let mut res: Vec<[i64; 3]> = Vec::with_capacity(ops.len() + 8);
         let key: [u8; 8] = [1, 2, 3, 4, 5, 6, 7, 8];
+        let mut probes: Vec<i64> = vec![0; 64]; let mut nprobes = 0usize;      // (allocated before the baseline is taken)
         let base = [stats_of(mods[0]), stats_of(mods[1])];
         for op in &ops {
             let g = |i: usize| op.get(i).copied().unwrap_or(0);
@@ -52,6 +53,8 @@ fn main() {
             let mut r = [0i64, 0, -1];
             match g(0) {
                 0 => { pool.push(V::Ctx((m.make_ctx)())); r = [1, 0, pool.len() as i64 - 1]; }
+                // '31 m': a context whose payload reports where its last reference is released (printed like op 0)
+                31 => { if nprobes < 64 { let cell: *mut i64 = &mut probes[nprobes]; nprobes += 1; pool.push(V::Ctx((m.make_ctx_probed)(cell))); } else { pool.push(V::Ctx((m.make_ctx)())); } r = [1, 0, pool.len() as i64 - 1]; }
                 1 => if valid { if let V::Ctx(c) = &pool[h as usize] { let n = (m.ctx_clone)(c); pool.push(V::Ctx(n)); r = [1, 0, pool.len() as i64 - 1]; } }
                 2 | 6 => {
                     let c = g(3);
@@ -130,6 +133,8 @@ fn main() {
         let mut s = String::new();
         for r in &res { s.push_str(&format!("{} {} {} ; ", r[0], r[1], r[2])); }
         let mut fails: Vec<String> = vec![];
+        let inside = probes.iter().filter(|p| **p == 1).count();
+        if inside > 0 { fails.push(format!("last_reference_of_a_context_released_inside_a_generated_wrapper_(the_creating_module's_code_still_running)={}", inside)); }
         for k in 0..(if single { 1 } else { 2 }) {
             let (a, b) = (&base[k], &now[k]);
             let leaked = (b.allocs - a.allocs) as i64 - (b.frees - a.frees) as i64;
